@@ -107,7 +107,7 @@ impl Prop for C15 {
         "C15"
     }
     fn cases(&self, ctx: &Ctx) -> u64 {
-        ctx.tier.pick(2000, 50_000)
+        ctx.tier.pick(15_000, 150_000)
     }
     fn rule(&self) -> &'static str {
         "all generators x sampled configurations x cursor lists (0, end, beyond the end up to u32::MAX, every character boundary of small inputs, random boundaries, duplicates, unsorted, up to 64 cursors); oracles: output text equal with and without cursors; every reported cursor <= output length and on a character boundary; a cursor with token.start < c <= token.end (pasfmt's own tokenisation of the input) whose token text is unchanged at its place in the output (located by non-blank ordinal) is reported at the same offset inside that token; cursors beyond the end of the input are reported at the end of the output. Non-trivial: cursor strictly inside the text whose token moved; distinct by (input, cursor)."
